@@ -216,6 +216,8 @@ class ChangeScenario(Scenario):
             w = env.world
             if action == 'create':
                 w.create(K, 'ns', args[0], {'spec': dict(args[1]) if len(args) > 1 else {'x': 1}})
+            elif action == 'createl':
+                w.create(K, 'ns', args[0], {'spec': {'x': 1}, 'metadata': {'labels': {args[1]: args[2]}}})
             elif action == 'createbare':
                 w.create(K, 'ns', args[0], {})   # no spec, no labels: an empty essence
             elif action == 'unlabel':
